@@ -123,7 +123,6 @@ package graphalg
 //@   ensures ancR(idom[root := -1], root, b1, isect(idom, poNum, b1, b2)) && ancR(idom[root := -1], root, x, isect(idom, poNum, b1, b2))
 //@   trigger isect(idom, poNum, b1, b2), ancR(idom[root := -1], root, x, b2)
 
-
 // Well-formed flow graph: predecessor lists name valid nodes.
 //@ spec wfBi(g graph.BiGraph) bool = g.NumNodes() >= 0 && (forall b in 0..g.NumNodes(), k in 0..len(g.In(b)) :: 0 <= g.In(b)[k] && g.In(b)[k] < g.NumNodes())
 
